@@ -37,22 +37,25 @@ def shards (K P : Nat) (reads : List Seq) (perm : Option (Array Nat)) (rcMode : 
     let sorted := buckets.foldl (fun acc b => (acc.takeWhile (· < b)) ++ [b] ++ (acc.dropWhile (· < b))) []
     some (sorted.map fun b => (b, (all.filter (·.bucket == b)).map fun pc => (pc.seq, (⟨pc.exts⟩ : Exts), 0)))
 
+/-- one shard: filter (→ sharded prune) → hash-map order → compress -/
+def shardGraph (K : Nat) (stranded : Bool) (thr : Nat) (prune : Bool) (seqs : List (Seq × Exts × Nat)) (sigma : List Nat) :
+    Option (List (Node Payload)) :=
+  match Filter.filterKmers K seqs (.count thr) stranded prune 4 Gen.filterBytesPerUnit 16 with
+  | none => none
+  | some fr =>
+    let T0 := if prune then Filter.removeCensoredExtsSharded stranded fr.table fr.allKmers else fr.table
+    let T := sigma.filterMap fun i => T0[i]?
+    match Compress.compressKmersC T stranded (fun _ _ => true) sumReduce with
+    | some ns => some (ns.map (·.1))
+    | none => none
+
 /-- the sharded pipeline; `sigmas` = per shard (in bucket order) the index order of its hash map -/
 def sharded (K P : Nat) (reads : List Seq) (perm : Option (Array Nat)) (stranded : Bool) (thr : Nat) (prune : Bool)
     (sigmas : List (List Nat)) : Option (Graph.G Payload) :=
   match shards K P reads perm (!stranded) with
   | none => none
   | some shs =>
-    let graphs? : Option (List (List (Node Payload))) := (shs.zip sigmas).mapM fun ((_, seqs), sigma) =>
-      match Filter.filterKmers K seqs (.count thr) stranded prune 4 Gen.filterBytesPerUnit 16 with
-      | none => none
-      | some fr =>
-        let T0 := if prune then Filter.removeCensoredExtsSharded stranded fr.table fr.allKmers else fr.table
-        let T := sigma.filterMap fun i => T0[i]?
-        match Compress.compressKmersC T stranded (fun _ _ => true) sumReduce with
-        | some ns => some (ns.map (·.1))
-        | none => none
-    match graphs? with
+    match (shs.zip sigmas).mapM fun x => shardGraph K stranded thr prune x.1.2 x.2 with
     | none => none
     | some gs =>
       let combined : Graph.G Payload := ⟨K, combine gs, stranded⟩
